@@ -1,11 +1,12 @@
 import Cuke.Model.Writers
 import Cuke.Props.C13
+import Cuke.Props.C02
 /-!
 # C12 — Summary counters equal what the event stream contains
 Model: `Cuke.Summ` (Cuke/Model/Summarize.lean) inside `Cuke.handle (.summ w)`.
 -/
 namespace Cuke.C12
-open Cuke List
+open Cuke List Cuke.C02
 
 /-- one `handle_event` of `Summarize` on its own state (counting, then the output transition) -/
 def step (cat : Catalog) (s : Summ) (e : Ev) : Summ := ((s.pre cat e).post).1
@@ -354,5 +355,255 @@ theorem C12_class_full_false_c :
 /-! ## Non-vacuity of the counter theorems -/
 example : vec (summAfter (catx 1) streamB) = countVec (streamB.dropLast) := by decide +kernel
 example : countVec (streamB.dropLast) = ⟨0, 0, 0, 1, 0, 1, 1, 0⟩ := by decide +kernel
+
+
+/-! ## Scenario classification: the proved part (attempts with no retry left) -/
+
+/-- what `Summarize` remembers and counts about ONE scenario: its indicator and the scenario counters -/
+def obs (k : ScenKey) (s : Summ) : Option Indicator × Stats := (s.handled.get k, s.scenarios)
+
+/-- the effect of one scenario event on `obs`, as a function of `obs` alone -/
+def obsStep (ret : Option Retries) (nsteps : Nat) (o : Option Indicator × Stats) : ScenEv → Option Indicator × Stats
+  | .started => o
+  | .log _ => o
+  | .hook _ r =>
+    if r.isFailed then
+      match o.1 with
+      | some .failed => o
+      | some .retried => o
+      | some .skipped => (o.1, { o.2 with skipped := o.2.skipped - 1, failed := o.2.failed + 1 })
+      | none => (some .failed, { o.2 with failed := o.2.failed + 1 })
+    else o
+  | .bg _ r => stepObs false r
+  | .step i r => stepObs (decide (i + 1 = nsteps)) r
+  | .finished =>
+    match o.1 with
+    | some .retried => o
+    | some _ => (none, o.2)
+    | none => (none, { o.2 with passed := o.2.passed + 1 })
+where
+  stepObs (isLast : Bool) : StepRes → Option Indicator × Stats
+    | .started => o
+    | .passed => if isLast then (none, o.2) else o
+    | .skipped => (some .skipped, { o.2 with skipped := o.2.skipped + 1 })
+    | .failed err =>
+      if isRetriedFailure ret err then
+        (some .retried, if o.1.isNone then { o.2 with retried := o.2.retried + 1 } else o.2)
+      else (some .failed, { o.2 with failed := o.2.failed + 1 })
+
+theorem get_insert_self (h : Handled) (k : ScenKey) (i : Indicator) : (h.insert k i).get k = some i := by
+  simp [Handled.insert, Handled.get, find?]
+
+theorem get_remove_self (h : Handled) (k : ScenKey) : (h.remove k).get k = none := by
+  simp only [Handled.remove, Handled.get, Option.map_eq_none_iff, find?_eq_none, mem_filter]
+  intro x hx
+  simpa using hx.2
+
+theorem obs_handle (cat : Catalog) (k : ScenKey) (ret : Option Retries) (s : Summ) (e : ScenEv) :
+    obs k (s.handleScenario cat k ret e) = obsStep ret (cat.nsteps k) (obs k s) e := by
+  have hstep : ∀ (isLast : Bool) (r : StepRes),
+      obs k (s.handleStep k isLast r ret) = obsStep.stepObs ret (obs k s) isLast r := by
+    intro isLast r
+    cases r with
+    | started => rfl
+    | passed =>
+      cases isLast <;> simp [Summ.handleStep, obs, obsStep.stepObs, get_remove_self]
+    | skipped => simp [Summ.handleStep, obs, obsStep.stepObs, get_insert_self]
+    | failed err =>
+      by_cases hr : isRetriedFailure ret err = true
+      · simp only [Summ.handleStep, hr, if_true, obs, obsStep.stepObs]
+        by_cases hn : (s.handled.get k).isNone = true
+        · simp [hn, get_insert_self]
+        · simp [hn, get_insert_self]
+      · have hr' : isRetriedFailure ret err = false := by simpa using hr
+        simp [Summ.handleStep, hr', obs, obsStep.stepObs, get_insert_self]
+  cases e with
+  | started => rfl
+  | log m => rfl
+  | finished =>
+    simp only [Summ.handleScenario, Summ.handleScenFinished, obs, obsStep]
+    cases hg : s.handled.get k with
+    | none => simp [hg]
+    | some i => cases i <;> simp [hg, get_remove_self]
+  | hook t r =>
+    cases r with
+    | failed p =>
+      simp only [Summ.handleScenario, HookRes.isFailed, if_true, Summ.handleHookFailed, obs, obsStep]
+      cases hg : s.handled.get k with
+      | none => simp [hg, get_insert_self]
+      | some i => cases i <;> simp [hg]
+    | _ => simp [Summ.handleScenario, HookRes.isFailed, obs, obsStep]
+  | bg i r => simpa [Summ.handleScenario, obsStep] using hstep false r
+  | step i r => simpa [Summ.handleScenario, obsStep] using hstep (decide (i + 1 = cat.nsteps k)) r
+
+
+/-- feed one attempt's events of scenario `k` -/
+def feedScen (cat : Catalog) (k : ScenKey) (ret : Option Retries) (s : Summ) (evs : List ScenEv) : Summ :=
+  evs.foldl (fun s e => s.handleScenario cat k ret e) s
+
+theorem obs_feed (cat : Catalog) (k : ScenKey) (ret : Option Retries) (s : Summ) (evs : List ScenEv) :
+    obs k (feedScen cat k ret s evs) = evs.foldl (obsStep ret (cat.nsteps k)) (obs k s) := by
+  induction evs generalizing s with
+  | nil => rfl
+  | cons e es ih => simp only [feedScen, foldl_cons] at ih ⊢; rw [ih, obs_handle]
+
+/-- folding the step part of a canonical attempt (no retry left), before the deferred failure -/
+theorem fold_specSteps (ret : Option Retries) (n : Nat) (sp : AttemptSpec) (hn : n = sp.nsteps)
+    (hret : ∀ err, isRetriedFailure ret err = false) (sc : Stats) (l : List (Bool × Nat)) (idx : Nat) :
+    (specSteps sp idx l).1.foldl (obsStep ret n) (none, sc) =
+      match (specSteps sp idx l).2 with
+      | .skipped => (some .skipped, { sc with skipped := sc.skipped + 1 })
+      | _ => (none, sc) := by
+  induction l generalizing idx with
+  | nil => simp [specSteps]
+  | cons s rest ih =>
+    obtain ⟨bg, i⟩ := s
+    simp only [specSteps]
+    cases h : effRes sp idx bg i with
+    | started => exact absurd h (effRes_ne_started sp idx bg i)
+    | passed =>
+      simp only [foldl_cons]
+      have h1 : obsStep ret n (none, sc) (stepEv bg i .started) = (none, sc) := by
+        cases bg <;> simp [stepEv, obsStep, obsStep.stepObs]
+      have h2 : obsStep ret n (none, sc) (stepEv bg i .passed) = (none, sc) := by
+        cases bg <;> simp [stepEv, obsStep, obsStep.stepObs]
+      rw [h1, h2]
+      exact ih (idx + 1)
+    | skipped =>
+      cases bg <;> simp [stepEv, obsStep, obsStep.stepObs]
+    | failed e =>
+      cases bg <;> simp [stepEv, obsStep, obsStep.stepObs]
+
+
+
+/-- the class the property assigns to a finished attempt -/
+def attemptClass (sp : AttemptSpec) (wid : Nat) (sc : Stats) : Stats :=
+  if (runAttempt sp wid).failed then { sc with failed := sc.failed + 1 }
+  else if (runAttempt sp wid).reason = .stepSkipped then { sc with skipped := sc.skipped + 1 }
+  else { sc with passed := sc.passed + 1 }
+
+theorem afterFold (ret : Option Retries) (n : Nat) (sp : AttemptSpec) (o : Option Indicator × Stats) :
+    (specAfter sp).foldl (obsStep ret n) o =
+      if afterFailed sp then obsStep ret n o (.hook .after (.failed 0)) else o := by
+  unfold specAfter afterFailed
+  cases sp.hasAfter with
+  | false => simp
+  | true =>
+    cases sp.after with
+    | pass => simp [obsStep, HookRes.isFailed]
+    | panic p => simp [obsStep, HookRes.isFailed]
+
+theorem specSteps_failed_shape (sp : AttemptSpec) (l : List (Bool × Nat)) (idx : Nat) (ev : ScenEv)
+    (h : (specSteps sp idx l).2 = .failed ev) : ∃ bg i e, ev = stepEv bg i (.failed e) := by
+  induction l generalizing idx with
+  | nil => simp [specSteps] at h
+  | cons s rest ih =>
+    obtain ⟨bg, i⟩ := s
+    simp only [specSteps] at h
+    cases he : effRes sp idx bg i with
+    | started => simp [he] at h
+    | passed => simp only [he] at h; exact ih (idx + 1) h
+    | skipped => simp [he] at h
+    | failed e =>
+      simp only [he, Stop.failed.injEq] at h
+      exact ⟨bg, i, e, h.symm⟩
+
+theorem specSteps_not_beforeFailed (sp : AttemptSpec) (l : List (Bool × Nat)) (idx : Nat) (ev : ScenEv) :
+    (specSteps sp idx l).2 ≠ .beforeFailed ev := by
+  induction l generalizing idx with
+  | nil => simp [specSteps]
+  | cons s rest ih =>
+    obtain ⟨bg, i⟩ := s
+    simp only [specSteps]
+    cases he : effRes sp idx bg i with
+    | started => simp
+    | passed => exact ih (idx + 1)
+    | skipped => simp
+    | failed e => simp
+
+/-- **A scenario attempt with no retry left is counted exactly once, in the class of that attempt**
+    (failed if a step, the before hook or the after hook failed; skipped if a step was skipped; passed
+    otherwise) — for EVERY attempt the attempt model (C02) can produce, whatever else `Summarize` has seen,
+    provided it holds no stale indicator for the scenario. Excluded: attempts with a retry left
+    (findings F-C12a/b/c live there). -/
+theorem single_attempt_counted_once (cat : Catalog) (k : ScenKey) (ret : Option Retries) (sp : AttemptSpec) (wid : Nat)
+    (s : Summ) (hn : cat.nsteps k = sp.nsteps) (hret : ∀ err, isRetriedFailure ret err = false)
+    (hk : s.handled.get k = none) :
+    obs k (feedScen cat k ret s (runAttempt sp wid).events) = (none, attemptClass sp wid s.scenarios) := by
+  have hfailed : (runAttempt sp wid).failed = ((specStop sp).isFailure || afterFailed sp) := by
+    simp [runAttempt, (runBody_spec sp wid).2]
+  have hreason : (runAttempt sp wid).reason = reasonOf (specStop sp) := by
+    simp [runAttempt, (runBody_spec sp wid).2]
+  rw [obs_feed, runAttempt_canonical]
+  unfold attemptClass
+  rw [hfailed, hreason]
+  have hobs : obs k s = (none, s.scenarios) := by simp [obs, hk]
+  rw [hobs]
+  unfold specEvents
+  simp only [foldl_append, foldl_cons, foldl_nil]
+  have hstart : obsStep ret (cat.nsteps k) (none, s.scenarios) ScenEv.started = (none, s.scenarios) := rfl
+  rw [hstart]
+  -- the before hook
+  cases hb : specBefore sp with
+  | mk evB stopB =>
+    unfold specStop
+    rw [hb]
+    simp only
+    have hbcases : (evB = [] ∧ stopB = .none) ∨ (evB = [.hook .before .started, .hook .before .passed] ∧ stopB = .none) ∨
+        (∃ p, evB = [.hook .before .started] ∧ stopB = .beforeFailed (.hook .before (.failed p))) := by
+      unfold specBefore at hb
+      split at hb
+      · split at hb
+        · split at hb
+          · simp only [Prod.mk.injEq] at hb; exact Or.inr (Or.inl ⟨hb.1.symm, hb.2.symm⟩)
+          · simp only [Prod.mk.injEq] at hb; exact Or.inr (Or.inr ⟨_, hb.1.symm, hb.2.symm⟩)
+        · simp only [Prod.mk.injEq] at hb; exact Or.inr (Or.inr ⟨_, hb.1.symm, hb.2.symm⟩)
+      · simp only [Prod.mk.injEq] at hb; exact Or.inl ⟨hb.1.symm, hb.2.symm⟩
+    rcases hbcases with ⟨rfl, rfl⟩ | ⟨rfl, rfl⟩ | ⟨p, rfl, rfl⟩
+    all_goals simp only [foldl_nil, foldl_cons]
+    · -- no before hook
+      rw [fold_specSteps ret (cat.nsteps k) sp hn hret, afterFold]
+      cases hst : (specSteps sp 0 (stepList sp)).2 with
+      | failed ev =>
+        obtain ⟨bg, i, e, rfl⟩ := specSteps_failed_shape sp _ _ ev hst
+        cases haf : afterFailed sp <;> cases bg <;>
+          simp [Stop.deferred, Stop.isFailure, reasonOf, stepEv, obsStep, obsStep.stepObs, HookRes.isFailed, hret]
+      | beforeFailed ev => exact absurd hst (specSteps_not_beforeFailed sp _ _ ev)
+      | none =>
+        cases haf : afterFailed sp <;>
+          simp [Stop.deferred, Stop.isFailure, reasonOf, obsStep, obsStep.stepObs, HookRes.isFailed, hret]
+      | skipped =>
+        cases haf : afterFailed sp <;>
+          simp [Stop.deferred, Stop.isFailure, reasonOf, obsStep, obsStep.stepObs, HookRes.isFailed, hret]
+    · -- before hook passed
+      have h1 : obsStep ret (cat.nsteps k) (none, s.scenarios) (.hook .before .started) = (none, s.scenarios) := by
+        simp [obsStep, HookRes.isFailed]
+      have h2 : obsStep ret (cat.nsteps k) (none, s.scenarios) (.hook .before .passed) = (none, s.scenarios) := by
+        simp [obsStep, HookRes.isFailed]
+      rw [h1, h2, fold_specSteps ret (cat.nsteps k) sp hn hret, afterFold]
+      cases hst : (specSteps sp 0 (stepList sp)).2 with
+      | failed ev =>
+        obtain ⟨bg, i, e, rfl⟩ := specSteps_failed_shape sp _ _ ev hst
+        cases haf : afterFailed sp <;> cases bg <;>
+          simp [Stop.deferred, Stop.isFailure, reasonOf, stepEv, obsStep, obsStep.stepObs, HookRes.isFailed, hret]
+      | beforeFailed ev => exact absurd hst (specSteps_not_beforeFailed sp _ _ ev)
+      | none =>
+        cases haf : afterFailed sp <;>
+          simp [Stop.deferred, Stop.isFailure, reasonOf, obsStep, obsStep.stepObs, HookRes.isFailed, hret]
+      | skipped =>
+        cases haf : afterFailed sp <;>
+          simp [Stop.deferred, Stop.isFailure, reasonOf, obsStep, obsStep.stepObs, HookRes.isFailed, hret]
+    · -- before hook failed: no steps, the deferred Hook-Failed event, then the after hook
+      have h1 : obsStep ret (cat.nsteps k) (none, s.scenarios) (.hook .before .started) = (none, s.scenarios) := by
+        simp [obsStep, HookRes.isFailed]
+      rw [h1, afterFold]
+      cases haf : afterFailed sp <;>
+        simp [Stop.deferred, Stop.isFailure, reasonOf, obsStep, HookRes.isFailed]
+
+
+/-- non-vacuity: the C02 example attempt (before hook, background, a panicking second step, a failing after
+    hook) without retries is counted once, as failed -/
+example : obs kx (feedScen (catx 3) kx none {} (runAttempt exSpec 9).events) =
+    (none, { passed := 0, skipped := 0, failed := 1, retried := 0 }) := by decide +kernel
 
 end Cuke.C12
